@@ -4,10 +4,10 @@ import Fs.Model.Names
 Driver handler for the `names` model (C03).
 
 request:  `names	hist	<op>;<op>;…`   with
-  op    := `c,<d|->,<s|->`                       connect(database, schema)
+  op    := `c,<d|->,<s|->,<cd 0|1>,<cs 0|1>`     connect(database, schema) on an instance with create_*_on_connect
          | `s,<i>,<stmt>`                        statement on connection i
-  stmt  := `cd,<d>` | `dd,<d>` | `ud,<d>` | `ub,<x>` | `sc,<sref>` | `sd,<sref>` | `su,<sref>`
-         | `tc,<t|v>,<v>,<tref>` | `td,<t|v>,<tref>` | `ti,<v>,<tref>` | `ts,<tref>` | `j,<tref>,<tref>` | `x`
+  stmt  := `cd,<d>,<ifx>` | `dd,<d>` | `ud,<d>` | `ub,<x>` | `sc,<ifx>,<sref>` | `sd,<ifx>,<sref>` | `su,<sref>`
+         | `tc,<t|v>,<v>,<ifx>,<tref>` | `td,<t|v>,<ifx>,<tref>` | `ti,<v>,<tref>` | `ts,<tref>` | `j,<tref>,<tref>` | `x`
   sref  := `<s>` | `<d>.<s>`        tref := `<n>` | `<s>.<n>` | `<d>.<s>.<n>`      (names are numbers)
 reply:    `steps=<step>;<step>;…	final=<catalog>` one step per op:
   step  := `<impl res>~<spec res|?>~<key|->~<sess>!<sess>…`
@@ -38,15 +38,15 @@ def pSRef (s : String) : Option SRef :=
 def pKind : String → Option Kind | "t" => some .table | "v" => some .view | _ => none
 
 def pStmt : List String → Option Stmt
-  | ["cd", d] => (pNat d).map .createDb
+  | ["cd", d, i] => (pNat d).map fun d => .createDb d (i == "1")
   | ["dd", d] => (pNat d).map .dropDb
   | ["ud", d] => (pNat d).map .useDb
   | ["ub", d] => (pNat d).map .useBare
-  | ["sc", r] => (pSRef r).map (.sch .create)
-  | ["sd", r] => (pSRef r).map (.sch .drop)
+  | ["sc", i, r] => (pSRef r).map (.sch (.create (i == "1")))
+  | ["sd", i, r] => (pSRef r).map (.sch (.drop (i == "1")))
   | ["su", r] => (pSRef r).map (.sch .use)
-  | ["tc", k, v, r] => do let k ← pKind k; let v ← pNat v; let r ← pTRef r; pure (.tab (.create k v) r)
-  | ["td", k, r] => do let k ← pKind k; let r ← pTRef r; pure (.tab (.drop k) r)
+  | ["tc", k, v, i, r] => do let k ← pKind k; let v ← pNat v; let r ← pTRef r; pure (.tab (.create k v (i == "1")) r)
+  | ["td", k, i, r] => do let k ← pKind k; let r ← pTRef r; pure (.tab (.drop k (i == "1")) r)
   | ["ti", v, r] => do let v ← pNat v; let r ← pTRef r; pure (.tab (.insert v) r)
   | ["ts", r] => (pTRef r).map (.tab .select)
   | ["j", a, b] => do let a ← pTRef a; let b ← pTRef b; pure (.join a b)
@@ -55,7 +55,7 @@ def pStmt : List String → Option Stmt
 
 def pOp (s : String) : Option Op :=
   match s.splitOn "," with
-  | ["c", d, sc] => do let d ← pOpt d; let sc ← pOpt sc; pure (.connect d sc)
+  | ["c", d, sc, cd, cs] => do let d ← pOpt d; let sc ← pOpt sc; pure (.connect d sc (cd == "1") (cs == "1"))
   | "s" :: i :: rest => do let i ← pNat i; let st ← pStmt rest; pure (.stmt i st)
   | _ => none
 
@@ -77,8 +77,16 @@ def eSess (cat : Cat) (ss : Session) (spec : Option Ctx) : String :=
     | none => "?/?"
   s!"{eOpt ss.database}/{eOpt ss.schema}/{ss.path.1}/{ss.path.2}/{sp}"
 
-def eSessions (w : World) (sw : Option SWorld) : String :=
-  "!".intercalate (w.sessions.zipIdx.map fun (ss, j) => eSess w.cat ss (sw.bind fun s => s.ctxs[j]?))
+/-- `newest`: the specification context of the last connection is shown even when that connection is not coherent
+    (connect step: what connect should have reported) -/
+def eSessions (w : World) (sw : Option SWorld) (newest : Bool := false) : String :=
+  "!".intercalate (w.sessions.zipIdx.map fun (ss, j) =>
+    let spec := sw.bind fun s => s.ctxs[j]?
+    if newest && j + 1 == w.sessions.length then
+      match spec with
+      | some x => s!"{eOpt ss.database}/{eOpt ss.schema}/{ss.path.1}/{ss.path.2}/{eOpt x.db}/{eOpt x.schema}"
+      | none => eSess w.cat ss none
+    else eSess w.cat ss spec)
 
 def eCat (c : Cat) : String :=
   let dbs := ",".intercalate (c.dbs.map toString)
@@ -90,10 +98,11 @@ def eCat (c : Cat) : String :=
 /-- one op; returns the encoded step and the next world.  After an op the coherence of *every* connection
     decides whether its specification context is shown. -/
 def stepOut (w : World) : Op → String × World
-  | .connect d s =>
-    let w' := Impl.connect w d s
-    let sw := Spec.connect w.abs d s
-    (s!"ok~ok~-~{eSessions w' (some sw)}~{eCat w'.cat}~{eCat sw.cat}", w')
+  | .connect d s cd cs =>
+    let w' := Impl.connect w d s cd cs
+    let sw := Spec.connect w.abs d s cd cs
+    let key := match connectRegion w d s cd cs with | some k => k.name | none => "-"
+    (s!"ok~ok~{key}~{eSessions w' (some sw) true}~{eCat w'.cat}~{eCat sw.cat}", w')
   | .stmt i st =>
     let r := Impl.step w i st
     let cohBefore := match w.sessions[i]? with | some ss => ss.coherent w.cat | none => true
